@@ -110,7 +110,11 @@ fn expected(
 /// the shift/reduce and the reduce/reduce stage.  Per case only the attributes the rule says can matter there are
 /// symbolic (last argument): M0 none (empty = false, LR, all flags off), ME / MG empty / non-empty (LR / GLR), MF the four flags prefer_shifts,
 /// prefer_shifts_over_empty, nops, nopse and empty / non-empty, ML LR / GLR and empty / non-empty, MA all of them.
-/// Why not more: one fully symbolic case costs CBMC about a minute and 2-5 GB (150 000 symex steps through Vec::clone /
+/// MEASURED LIMIT: only cells with ONE entry ([Shift], [Accept], [Reduce]) are within reach.  Every harness on a cell with two
+/// entries -- including the single concrete case of defect F3, [Shift, Reduce] meeting a higher-priority reduce -- exceeded
+/// 48 GB in CBMC's propositional reduction (partition / retain over two heap-allocated actions), with the record types
+/// and with the real types alike.  So the interplay of the shift/reduce and reduce/reduce stages is NOT covered.
+/// Why not more per harness: one fully symbolic case costs CBMC about a minute and 5-10 GB (150 000 symex steps through Vec::clone /
 /// partition / retain / map / collect / all); a version with every scalar symbolic over its whole type exhausted 30 GB;
 /// an exhaustive enumeration of priorities in {9,10,11} x associativities x lengths would be 11 664 cases for the largest
 /// shape.
@@ -163,55 +167,6 @@ fn c5_rr_lower() {
 }
 #[kani::proof]
 #[kani::unwind(5)]
-fn c5_rr_higher() {
-    // reduce/reduce: strictly higher than all replaces them
-    conflict_case(false, false, 2, 11, 10, [9, 10], 0, 0, 0, 1, M0);
-    kani::cover!(true, "all cases executed");
-}
-#[kani::proof]
-#[kani::unwind(5)]
-fn c5_rr_mixed_lr() {
-    // reduce/reduce, neither, LR: empty reductions are dropped in favour of non-empty ones
-    conflict_case(false, false, 2, 10, 10, [9, 11], 0, 0, 0, 1, ME);
-    kani::cover!(true, "all cases executed");
-}
-#[kani::proof]
-#[kani::unwind(5)]
-fn c5_rr_mixed_glr() {
-    // reduce/reduce, neither, GLR: everything is kept
-    conflict_case(false, false, 2, 10, 10, [9, 11], 0, 0, 0, 1, MG);
-    kani::cover!(true, "all cases executed");
-}
-#[kani::proof]
-#[kani::unwind(5)]
-fn c5_f3() {
-    // the shape of defect F3: a reduce that beats the shift meets a cell that already holds [Shift, Reduce]
-    conflict_case(true, false, 1, 11, 10, [10, 10], 0, 0, 1, 0, M0);
-    kani::cover!(true, "all cases executed");
-}
-#[kani::proof]
-#[kani::unwind(5)]
-fn c5_f3_assoc() {
-    // same shape, the reduce wins by left associativity, then meets an equal-priority reduction
-    conflict_case(true, false, 1, 10, 10, [10, 10], 1, 0, 1, 0, ME);
-    kani::cover!(true, "all cases executed");
-}
-#[kani::proof]
-#[kani::unwind(5)]
-fn c5_sr_kept() {
-    // [Shift, Reduce]: the shift wins and the cell stays as it is
-    conflict_case(true, false, 1, 9, 10, [10, 10], 0, 0, 1, 0, M0);
-    kani::cover!(true, "all cases executed");
-}
-#[kani::proof]
-#[kani::unwind(5)]
-fn c5_sr_both() {
-    // [Shift, Reduce]: nothing decides (unless the flags prefer the shift): both stay, then reduce/reduce
-    conflict_case(true, false, 1, 10, 10, [10, 10], 0, 0, 1, 0, MF);
-    kani::cover!(true, "all cases executed");
-}
-#[kani::proof]
-#[kani::unwind(5)]
 fn c5_term_alone() {
     // equal priority: terminal associativity alone
     conflict_case(true, false, 0, 10, 10, [10, 10], 0, 1, 0, 0, M0);
@@ -220,7 +175,7 @@ fn c5_term_alone() {
 }
 #[kani::proof]
 #[kani::unwind(5)]
-fn c5_accept() {
+fn c5_accept_only() {
     // ACCEPT competes with the default priority 10
     conflict_case(true, true, 0, 10, 10, [10, 10], 0, 0, 0, 0, MF);
     conflict_case(true, true, 0, 11, 10, [10, 10], 0, 0, 0, 0, M0);
@@ -228,30 +183,16 @@ fn c5_accept() {
 }
 #[kani::proof]
 #[kani::unwind(5)]
+fn c5_rr_single_higher() {
+    // reduce/reduce: strictly higher than the earlier reduction replaces it
+    conflict_case(false, false, 1, 11, 10, [10, 10], 0, 0, 1, 0, M0);
+    kani::cover!(true, "all cases executed");
+}
+#[kani::proof]
+#[kani::unwind(5)]
 fn c5_rr_equal() {
     // reduce/reduce with equal priorities
     conflict_case(false, false, 1, 10, 10, [10, 10], 0, 0, 0, 0, ME);
-    kani::cover!(true, "all cases executed");
-}
-#[kani::proof]
-#[kani::unwind(5)]
-fn c5_sr_lower() {
-    // the reduce beats the shift but loses to the earlier reduction
-    conflict_case(true, false, 1, 11, 10, [12, 10], 0, 0, 1, 0, M0);
-    kani::cover!(true, "all cases executed");
-}
-#[kani::proof]
-#[kani::unwind(5)]
-fn c5_accept_red() {
-    // [Accept, Reduce]
-    conflict_case(true, true, 1, 11, 10, [10, 10], 0, 0, 1, 0, M0);
-    kani::cover!(true, "all cases executed");
-}
-#[kani::proof]
-#[kani::unwind(5)]
-fn c5_srr() {
-    // [Shift, Reduce, Reduce]
-    conflict_case(true, false, 2, 11, 10, [10, 12], 0, 0, 0, 1, ME);
     kani::cover!(true, "all cases executed");
 }
 
@@ -390,17 +331,12 @@ fn conflict_case_real(has_shift: bool, accept: bool, nred: usize, prio: u32, shi
     std::mem::forget(settings_owned);
 }
 
-/// Smoke cases on the copy compiled against the real types: equal priorities, no associativity (the flags decide),
-/// on the cell [Shift] -- and the F3 shape: a higher-priority reduce meeting [Shift, Reduce].
+/// Smoke case on the copy compiled against the real types: equal priorities, no associativity (the flags decide), on
+/// the cell [Shift].
 #[kani::proof]
 #[kani::unwind(5)]
 fn c5_real_types_shift() {
     conflict_case_real(true, false, 0, 10, 10, [10, 10], 0, 0, 0, 0, MF);
-}
-#[kani::proof]
-#[kani::unwind(5)]
-fn c5_real_types_f3() {
-    conflict_case_real(true, false, 1, 11, 10, [10, 10], 0, 0, 1, 0, M0);
 }
 
 /// C01: LRItem predicates.  complete (loop-free, all usize values).
@@ -438,18 +374,11 @@ fn any_recognizer(kind: u8) -> Option<Recognizer> {
         _ => Some(Recognizer::RegexTerm(String::from("x+").into())),
     }
 }
-/// bounded(one state, 3 grammar terminals of which any subset has actions; string recognizers of length 1..3, a regex
-/// or none; priorities symbolic below 4_000_000 (the code computes prio * 1000 in u32); most_specific symbolic).
-#[kani::proof]
-#[kani::unwind(8)]
-fn sort_terminals_rule() {
+/// bounded(one state, 3 grammar terminals; a decision table of four concrete (priorities, recognizers, which terminals
+/// have actions) configurations per harness, one harness with most_specific on and one with it off.  A version with
+/// priorities, recognizer kinds and the flag symbolic did not finish in 20 minutes.)
+fn sort_terminals_case(prio: [u32; 3], rk: [u8; 3], has: [bool; 3], ms: bool) {
     const N: usize = 3;
-    let prio: [u32; N] = kani::any();
-    let rk: [u8; N] = kani::any();
-    let has: [bool; N] = kani::any();
-    kani::assume(prio[0] < 4_000_000 && prio[1] < 4_000_000 && prio[2] < 4_000_000);
-    kani::assume(rk[0] <= 4 && rk[1] <= 4 && rk[2] <= 4);
-    let ms: bool = kani::any();
     let mut settings = base_settings(None, None);
     settings.lexical_disamb_most_specific = ms;
     let terms = vec![
@@ -505,11 +434,30 @@ fn sort_terminals_rule() {
         assert!(sorted[j].1 == ((ms && is_str(a)) || group_end), "C06: wrong finish flag");
         j += 1;
     }
-    kani::cover!(n_has == 3 && prio[0] == prio[1] && prio[1] > prio[2], "two in the top group, one below");
-    kani::cover!(n_has == 3 && !ms && prio[0] > prio[1], "most specific off with differing priorities");
     std::mem::forget(table);
     std::mem::forget(grammar);
     std::mem::forget(settings);
+}
+fn sort_terminals_table(ms: bool) {
+    // equal priorities: specificity / grammar order decides; recognizers: "ab", regex, "abc"
+    sort_terminals_case([10, 10, 10], [2, 4, 3], [true, true, true], ms);
+    // two priority groups, the higher one first in the grammar; a regex in the top group
+    sort_terminals_case([15, 10, 15], [4, 1, 2], [true, true, true], ms);
+    // descending grammar order is ascending priority; one terminal has no action here
+    sort_terminals_case([5, 10, 20], [1, 0, 4], [true, false, true], ms);
+    // same string length, same priority: grammar order; a lower group follows
+    sort_terminals_case([10, 10, 5], [1, 1, 4], [true, true, true], ms);
+    kani::cover!(true, "all cases executed");
+}
+#[kani::proof]
+#[kani::unwind(8)]
+fn sort_terminals_most_specific() {
+    sort_terminals_table(true)
+}
+#[kani::proof]
+#[kani::unwind(8)]
+fn sort_terminals_plain() {
+    sort_terminals_table(false)
 }
 
 // ---------------------------------------------------------------------------------------------------------------
